@@ -15,7 +15,7 @@ class C10(FloCheck):
             "clauses skipped, resumes the same tick without re-entry, exited with its main frame) by the reference interpreter; "
             "non-trivial = a suspension happened; distinct = digest of per-run (status, active outline)")
     assumptions = ["the order between a frame's own exit actions and the exit of its running conditional aux is taken from the implementation (statement leaves it open)"]
-    directed_files = ("flo-done-verb-in-exit-of-cond-aux-frame", "flo-overlapping-suspensions")
+    directed_files = ("flo-done-verb-in-exit-of-cond-aux-frame", "flo-overlapping-suspensions", "flo-cond-aux-ended-from-outside-not-restarted")
     required_probes = ["suspended", "aux-completed-and-resumed", "aux-immediate", "main-exited-while-suspended"]
 
     def invariants(self, plan, res, impl, out):
